@@ -704,7 +704,7 @@ def synth_file(ctx, O, spec=None):
                                     "start": rng.choice([0, 0, 5]),
                                     "sizes": [rng.choice([0, 1, 30, 255, 256, 600, 1300]) for _ in range(rng.choice([1, 2, 4, 6]))],
                                     "ds": rng.choice([255, 510, 600]), "wr": rng.choice([0, 100]),
-                                    "eos": rng.random() < 0.8})
+                                    "eos": rng.random() < 0.7, "eos_mid": rng.random() < 0.5})
     import random
     streams = []
     for st in spec["streams"]:
@@ -718,6 +718,8 @@ def synth_file(ctx, O, spec=None):
         pages[0].first = True
         if st["eos"]:
             pages[-1].last = True
+        elif st.get("eos_mid") and len(pages) >= 3:
+            pages[len(pages) // 2].last = True      # end-of-stream page followed by more pages of the serial (find_last stops there)
         streams.append(pages)
     order = []
     orng = random.Random(spec["order_seed"])
